@@ -181,6 +181,15 @@ def judge_parse_generic(rec, rf, rows, tmp, rnd, ptxns=None):
     except O.ImplError as e:
         rec.violation('impl-raises:' + type(e.exc).__name__, f'parse_generic_csv: {e}', case)
         return
+    if not ptrans:
+        try:
+            n, bad = O.pipeline_reported_is_classified(prules, ptxns, rows, tmp)
+            rec.count('reported_transaction_reclassified_checks', n)
+            for desc, loc, carried, again in bad[:1]:
+                rec.violation('tags-are-not-those-of-the-reported-transaction', f'statement without a location column: row {desc!r} is reported with location {loc!r} and '
+                              f'{carried[0]} {sorted(carried[1])}, but the rules give {again[0]} {sorted(again[1])} for exactly that transaction', case)
+        except O.ImplError as e:
+            rec.violation('impl-raises:' + type(e.exc).__name__, f'parse_generic_csv: {e}', case)
     if len(out) != len(ptxns):
         return  # row-level fidelity is C05's subject
     for t2, o in zip(ptxns, out):
@@ -221,6 +230,15 @@ def tag_heavy(gen, rnd):
             r.merchant = 'TagOnly Merchant'
         if rnd.random() < .2:
             r.match = rnd.choice(MATCH_ALL)
+    if rnd.random() < .3:
+        # tag-only rules whose conditions / dynamic tags differ ONLY in the blanks inside a string literal: two different expressions
+        a, b = rnd.choice([('contains("uber   eats")', 'contains("uber eats")'), ('contains("WHOLE  FOODS")', 'contains("WHOLE FOODS")'),
+                           ('startswith("star-BUCKS  *")', 'startswith("star-BUCKS *")'), ('contains("a.b-*  ")', 'contains("a.b-* ")')])
+        ta, tb = rnd.choice([('wide', 'narrow'), ('{split(description, "  ", 0)}', '{split(description, " ", 0)}'), ('{trim(split(description, "  ", 1))}x', '{trim(split(description, " ", 1))}x')])
+        pair = [R.Rule('Blanks A', a, '', '', tags=[ta]), R.Rule('Blanks B', b, '', '', tags=[tb])]
+        rnd.shuffle(pair)
+        for r in pair:
+            rf.rules.insert(rnd.randint(0, len(rf.rules)), r)
     if len(rf.rules) >= 2 and rnd.random() < .3:
         # section names are labels, not keys: several [Amazon] blocks are several rules, each contributing its own tags
         a, b = rnd.sample(range(len(rf.rules)), 2)
